@@ -378,6 +378,11 @@ def evalt(t: Term, val: dict):
         if o in ("==", "!=", "<", "<="):
             a, b = int(evalt(t[2], val)), int(evalt(t[3], val))
             return {"==": a == b, "!=": a != b, "<": a < b, "<=": a <= b}[o]
+        if o == "**":
+            a, b = int(evalt(t[2], val)), int(evalt(t[3], val))
+            if not 0 <= b < 64:
+                raise NotEvaluable("power")
+            return a**b
         if o in ("//", "%", "<<", ">>"):
             a, b = int(evalt(t[2], val)), int(evalt(t[3], val))
             if o in ("//", "%") and b == 0:
@@ -397,6 +402,17 @@ def evalt(t: Term, val: dict):
         if f in (("n", "min"), ("n", "max")) and t[2]:
             xs = [int(evalt(x, val)) for x in t[2]]
             return min(xs) if f[1] == "min" else max(xs)
+        # amaranth.utils
+        if f == ("n", "ceil_log2") and len(t[2]) == 1:
+            n = int(evalt(t[2][0], val))
+            if n < 0:
+                raise NotEvaluable("ceil_log2 of a negative number")
+            return 0 if n == 0 else (n - 1).bit_length()
+        if f == ("n", "exact_log2") and len(t[2]) == 1:
+            n = int(evalt(t[2][0], val))
+            if n <= 0 or n & (n - 1):
+                raise NotEvaluable("exact_log2 of a non-power of two")
+            return n.bit_length() - 1
     if k == "ife":
         return evalt(t[2], val) if evalt(t[1], val) else evalt(t[3], val)
     raise NotEvaluable(tstr(t))
